@@ -302,7 +302,10 @@ def wellTyped (st : St) (ws : List String) : Bool :=
 
 def stepLine (d : DSt) (ws : List String) : DSt × String :=
   match ws with
-  | ["reset"] => (init0, obs init0)
+  | ["reset"] =>
+    -- the capacity tables given on the command line are a parameter of the whole run
+    let d0 := { init0 with st := { init0.st with capTab := d.st.capTab } }
+    (d0, obs d0)
   | ["end"] =>
     let s0 := (List.range nSlots).foldl (fun s v => giveTo s v 0) d.st
     let fin := (List.range nVars).foldl (fun (acc : Option St) v =>
@@ -354,4 +357,13 @@ def stepLine (d : DSt) (ws : List String) : DSt × String :=
 
 end Nstd.Rc
 
-def main : IO Unit := Nstd.Common.ioLoop Nstd.Rc.init0 Nstd.Rc.stepLine
+/-- command line: up to four comma-separated capacity tables (allocation sites 0..3, index = requested
+    minimum capacity), measured by `harness --probe` on the real String class -/
+def main (args : List String) : IO Unit :=
+  let tabs : List (List Nat) := args.map (fun a => (a.splitOn ",").filterMap (fun t => t.toNat?))
+  let capTab : Nat → Nat → Nat := fun site len =>
+    match (tabs.getD site [])[len]? with
+    | some c => c
+    | none => len ||| 3
+  let d0 : Nstd.Rc.DSt := { Nstd.Rc.init0 with st := { Nstd.Rc.init0.st with capTab := capTab } }
+  Nstd.Common.ioLoop d0 Nstd.Rc.stepLine
